@@ -180,10 +180,13 @@ FORMS = {"pathlib": "pathobj", "pathlike": "pathobj", "bytes": "pathobj",
          "dblslash": "relpath", "trailsep": "relpath",
          "blank": "name", "unicode": "name", "upper": "name", "multidot": "name", "extupper": "name", "extmixed": "name",
          "symlink": "link", "symlink-rel": "link", "symlink-dangling": "link", "hardlink": "link",
-         "rofile": "perm", "rodir": "perm"}
+         "rofile": "perm", "rodir": "perm", "tilde": "shellspelling", "envvar": "shellspelling"}
+# tilde / envvar: the path as a shell user would type it ('~/traj.h5', '$VERIF_C20_DIR/traj.h5') with HOME / the variable pointing
+# at the directory that holds the existing file.  mdtraj does not expand such spellings (the call fails, also on a fresh path);
+# only force_overwrite=False is run: whatever the call does, the existing file it would name after expansion must stay as it is.
 NEW_FORMS = ["pathlib", "pathlike", "bytes", "relative", "dotslash", "reldotdot", "dotdot", "dotmid", "dblslash", "trailsep",
              "blank", "unicode", "multidot", "extupper", "extmixed", "symlink", "symlink-rel", "symlink-dangling", "hardlink",
-             "rofile", "rodir"]
+             "rofile", "rodir", "tilde", "envvar"]
 # extensions only the format-specific savers / classes understand (Trajectory.save and md.open refuse them by name)
 SAVER_EXTRA = {
     "pdb.bz2": dict(kind="pdb", saver="save_pdb", bytes="bz2", self_top=True),
@@ -235,7 +238,7 @@ def _widened_table(seed, full):
             for entry in ENTRIES4:
                 if ext in OPEN_EXTRA and entry in ("save", "saver") or ext in SAVER_EXTRA and entry in ("save", "open"):
                     continue
-                for fo in (False, True):
+                for fo in ((False,) if form in ("tilde", "envvar") else (False, True)):
                     j += 1
                     for nf in ((1, multi) if full else ((1, multi)[j % 2],)):
                         for c in (("same", "junk") if full else (("same", "junk")[(j // 2) % 2],)):
@@ -1095,6 +1098,12 @@ def _call_path(form, dirpath, name):
         return dirpath + os.sep + os.sep + name
     if form == "trailsep":
         return path + os.sep
+    if form == "tilde":
+        os.environ["HOME"] = dirpath
+        return "~" + os.sep + name
+    if form == "envvar":
+        os.environ["VERIF_C20_DIR"] = dirpath
+        return "$VERIF_C20_DIR" + os.sep + name
     if form == "pathlib":
         return pathlib.Path(path)
     if form == "pathlike":
@@ -1106,10 +1115,18 @@ def _call_path(form, dirpath, name):
 
 def _with_form(form, dirpath, name, fn):
     cwd = os.getcwd()
+    home = os.environ.get("HOME")
     try:
+        if form in ("tilde", "envvar"):
+            os.chdir(dirpath)  # a literal '~' or '$VAR' directory the call may create lands in the case directory
         return fn(_call_path(form, dirpath, name))
     finally:
         os.chdir(cwd)
+        if home is None:
+            os.environ.pop("HOME", None)
+        else:
+            os.environ["HOME"] = home
+        os.environ.pop("VERIF_C20_DIR", None)
 
 
 def _chmod_tree(paths, fmode, dmode):
@@ -1273,6 +1290,10 @@ def _run_overwrite(case, ctx, d):
             ctx.skip("fo=False.raises", f"{ext}/{entry}: on a fresh path the call returns but its output is not at os.fspath(path) (path form {form}): what "
                                         "pre-exists is not a path this call writes; where a save lands is C01's subject")
             ctx.observe("fresh_path_output_not_at_fspath", f"{m['kind']}:{entry}:{form}")
+        elif form in ("tilde", "envvar"):
+            ctx.skip("fo=False.raises", "a '~' / '$VAR' spelling names the existing file only after an expansion mdtraj does not perform: the literal path "
+                                        "does not exist, so no refusal is required; the file it would expand to is monitored for modification")
+            ctx.observe("fo=False_shell_spelling_call", "raised " + type(raised).__name__ if raised else "did not raise")
         elif form == "symlink-dangling":
             ctx.skip("fo=False.raises", "a dangling symbolic link at the path: no existing FILE can be modified (os.path.exists is false); whether the "
                                         "link counts as 'a path that already exists' is not said - the link itself is monitored")
